@@ -13,7 +13,9 @@ HOOK_COMMITS = ["f98da77", "3658628"]
 PENDING = {}
 
 PENDING_TEXT = {
-    "C04": ["ShapeVerif.accepted_is_json", "ShapeVerif.sources_accepted_are_json", "ShapeVerif.checked_ok_is_json",
+    "C04": ["ShapeVerif.accept_iff", "ShapeVerif.json_is_inferred", "ShapeVerif.json_rejected_only_for_conflict",
+            "ShapeVerif.sources_iff", "ShapeVerif.rules_complete", "ShapeVerif.lexLoop_complete", "ShapeVerif.tvalue_unique",
+            "ShapeVerif.accepted_is_json", "ShapeVerif.sources_accepted_are_json", "ShapeVerif.checked_ok_is_json",
             "ShapeVerif.accept_sound", "ShapeVerif.tokenize_sound", "ShapeVerif.rules_sound",
             "ShapeVerif.accept_no_diagnostics", "ShapeVerif.unchecked_false", "ShapeVerif.checked_iff",
             "ShapeVerif.sources_accept"],
@@ -178,20 +180,22 @@ PROPS = {
         "level_note": "Trusted: Lean kernel; models of subset.rs, merger.rs, shape/mod.rs tied by differential testing; text layer via the reference parser until C04.",
     },
     "C04": {
-        "module": "ShapeVerif.Props.C04Sound",
-        "extra_modules": ["ShapeVerif.Props.C04"],
+        "module": "ShapeVerif.Props.C04Complete",
+        "extra_modules": ["ShapeVerif.Props.C04Sound", "ShapeVerif.Props.C04"],
         "theorems": PENDING_TEXT["C04"],
         "statements": {
-            "accepted_is_json": "∀ src s, fromStr src = ok s → ∃ toks d, JsonTextVia src toks d ∧ depthOk (toks.map kind) ∧ inferDoc d = ok s — where JsonTextVia (Ref/JsonText.lean) says: toks cut src into lexemes each valid per RFC 8259 (structural characters, literal names, number per §6 = Rfc.number, string per §7 = Rfc.stringBody, whitespace runs) and the non-whitespace lexemes derive `value` in the RFC's token grammar (Ref/TokenGrammar.lean: value/object/member/array)",
-            "accept_sound": "token level: accepted ⇒ the lexer reported nothing and the non-skip tokens derive `value`, the shape being inferDoc of the derived document",
-            "rules_sound": "the six mutually recursive functions of the lelwel-generated recovering parser, in states where nothing has been reported yet: a run that reports nothing has consumed exactly a phrase of the token grammar and built a node that parse_cst evaluates to inferDoc of the phrase's document",
-            "tokenize_sound": "without lexer diagnostics the tokens tile the text with valid lexemes and no prefix has more than 256 brackets open",
+            "accept_iff": "∀ src s, fromStr src = ok s ↔ ∃ toks d, JsonTextVia src toks d ∧ depthOk (toks.map kind) ∧ inferDoc d = ok s — JsonTextVia (Ref/JsonText.lean): toks cut src into lexemes each valid per RFC 8259 (six structural characters, three literal names, number per §6 = Rfc.number, string per §7 = Rfc.stringBody, whitespace runs) whose non-whitespace part derives `value` in the RFC's token grammar (Ref/TokenGrammar.lean); depthOk: no prefix has more than 256 brackets open; inferDoc d fails exactly on a member name repeated with conflicting value shapes",
+            "json_is_inferred": "JsonTextVia src toks d → depthOk → fromStr src = inferDoc d (as outcomes): every JSON text within the bound is accepted with inferDoc's shape or rejected with inferDoc's error",
+            "sources_iff": "(∃ s, fromSources srcs = ok s) ↔ srcs ≠ [] ∧ every source is accepted by fromStr",
+            "checked_iff": "is_superset_checked errs exactly when from_str errs, with the same error",
+            "unchecked_false": "is_superset answers false for every text from_str rejects",
+            "tvalue_unique": "the token grammar is unambiguous: a token list has at most one document",
         },
-        "partial": ["proved: the 'only if' half for all strings (accepted_is_json, and for from_sources / is_superset_checked), plus unchecked_false / checked_iff / sources_accept. The 'if' half (every JSON text within the depth bound and without conflicting duplicate names is accepted) is not yet a theorem; it is tested: the independent recursive-descent parser Ref/Rfc8259.lean must accept exactly the texts the implementation accepts, on every generated string",
-                    "the specification used by the theorem is the declarative two-level grammar (JsonTextVia); the executable reference parser used by the oracle is Rfc.parse; their equivalence is not proved (both are short and written from the RFC)"],
+        "partial": ["the theorem's specification of JSON is the declarative two-level grammar (JsonTextVia); the executable reference parser used by the run-time oracle (Rfc.parse, recursive descent over characters) is a second, independent rendering of RFC 8259 — their equivalence is not proved (the oracle compares the implementation with Rfc.parse on every generated text, the theorem ties the model to JsonTextVia)",
+                    "logos' matching discipline and the lelwel-generated parser are modelled from their sources/behaviour; the model is compared with the real lexer tokens, CST and results on every text of the run"],
         "rule": "from_str (and is_superset_checked / is_superset / from_sources on a subset) on: every string of length <= 3 (thorough 4) over a 29-character JSON alphabet, every token string of length <= 5 (thorough 6) over 13 lexemes, valid documents in four formattings with every prefix, deletion, substitution and insertion, escapes incl. surrogate pairs, nesting 200..300 around the limit, asymmetric bracket mixes, many-sibling documents (up to 700 arrays/objects). Oracle: accepted iff the independent RFC 8259 parser (Ref/Rfc8259.lean) accepts, depth <= 256 and no conflicting duplicate member names. Non-trivial = text with a container or an error.",
         "assumptions": ["logos' matching discipline (longest match, keyword priority, one-character error tokens) is modelled from observation"],
-        "level_text": "accepted_is_json is a Lean theorem over all strings: whatever from_str accepts is an RFC 8259 text (lexemes valid per the RFC's number and string rules, token sequence derivable in the RFC's grammar), within the 256 bracket bound, and its shape is inferDoc of the derived document. It is proved about the full model of the text layer (logos token set with check_string, the lelwel recovering LL(1) parser with its error recovery and open/close bookkeeping, parse_cst, reject_diagnostics), which is compared with the real code on ~600k texts per run including exact error ranges. The converse (every such text is accepted) is tested against an independent RFC parser on every text, not proved.",
+        "level_text": "accept_iff is a Lean theorem over all strings: from_str returns a shape exactly for the texts that are JSON per RFC 8259 (valid lexemes per the RFC's number and string rules, token sequence derivable in the RFC's grammar), keep at most 256 brackets open, and whose document has no member name repeated with conflicting value shapes; and the shape is inferDoc of that (unique) document. Both directions are proved about the full model of the text layer — the logos token set with check_string's escape state machine, the lelwel recovering LL(1) parser with error recovery and open/close bookkeeping, parse_cst, reject_diagnostics — through lexer soundness/completeness (maximal munch against the follow sets of the grammar), parser soundness/completeness in states where nothing has been reported, unambiguity of the grammar, and evaluation of parse_cst on the built tree. The model is compared with the real code on ~600k texts per run including tokens, CST and exact error ranges.",
         "level_note": "Trusted: Lean kernel; models of lexer.rs / generated.rs / shape/mod.rs / lib.rs (differential testing, exhaustive at small scope); Ref/JsonText.lean + Ref/TokenGrammar.lean + Rfc.number/Rfc.stringBody are the specification of the JSON language for the theorem, Ref/Rfc8259.lean's parser for the oracle.",
     },
     "C05": {
